@@ -11,6 +11,7 @@ sys.path.insert(0, os.path.join(C.VERIF, 'extract'))
 sys.path.insert(0, C.HARNESS)
 import scan            # noqa: E402
 import gen_staticinit  # noqa: E402
+import gen_premain     # noqa: E402
 
 READS = {'construct_std': [], 'construct_nonstd': ['MapOfConversionsToStandard'], 'value_in': ['MapOfConversionsFromStandard'],
          'print': ['Abbreviations'], 'parse': ['Spellings', 'Abbreviations'], 'consistent': ['ConsistentUnits'], 'related': ['RelatedUnitSystems']}
@@ -37,6 +38,9 @@ def run(tier):
                 raise C.ToolError('MC_StaticInit: ' + res.out[-1500:])
             faults = sorted(set(__import__('re').findall(r'<<"(\w+)@tu\d", "(\w+)">>', res.out))) if res.violated else []
             model[(i, pol)] = {'holds': res.violated is None, 'faults': faults, 'types': types}
+    # ---- discovery: any other variable template with unordered dynamic initialisation that library code refers to
+    vts = scan.scan_variable_templates()
+    extra_unordered = sorted(n for n, k in vts.items() if 'unordered' in k and n not in TABLES and n != 'operator')
     # ---- Conformance: probes with both compilers at -O0 and -O2
     src = C.gen_file('staticinit_probe.cpp', gen_staticinit.source(us))
     wsrc = C.gen_file('staticinit_witness.cpp', gen_staticinit.WITNESS)
@@ -48,6 +52,20 @@ def run(tier):
         wexe = C.compile_cxx(f'siwitness_{c}{o}', [wsrc], flags=['-std=c++17', o, '-w'], compiler=c)
         return co, exe, wexe
     evs = []
+    # quantity-level programs: one namespace-scope object per (quantity type, numeric type)
+    qs = scan.scan_quantities()
+    progs = [C.gen_file(n, t) for n, t in gen_premain.sources(qs, us)]
+
+    def build_pm(job):
+        (c, o), src_ = job
+        return (c, o), C.compile_cxx(f'premain_{c}{o}', [src_], flags=['-std=c++17', o, '-w'], compiler=c, timeout=3400)
+    with cf.ThreadPoolExecutor(C.NCPU) as ex:
+        for (c, o), exe in ex.map(build_pm, [(co, p) for co in combos for p in progs]):
+            r = subprocess.run([exe, c, o[1:]], stdout=subprocess.PIPE, stderr=subprocess.PIPE, timeout=600)
+            lines = [json.loads(x) for x in r.stdout.decode(errors='replace').splitlines() if x.startswith('{')]
+            evs += lines
+            if r.returncode != 0:
+                evs.append({'e': 'Witness', 'compiler': c, 'opt': o[1:], 'outcome': f'quantity-level program terminated with status {r.returncode} before or in main'})
     with cf.ThreadPoolExecutor(4) as ex:
         for (c, o), exe, wexe in ex.map(build, combos):
             r = subprocess.run([exe, c, o[1:]], stdout=subprocess.PIPE, stderr=subprocess.PIPE, timeout=600)
@@ -73,6 +91,12 @@ def run(tier):
                 mismatch += 1
                 chk.note_inconclusive(f"policy model mismatch: {k['compiler']} -{k['opt']} {k['facility']} {k['type']}<{k['num']}>")
                 continue
+            if b['cls'] == 'static_init_quantity':
+                key = f"static_init_quantity:{k['compiler']}:{k['type']}"
+                if key not in seen:
+                    seen.add(key)
+                    chk.violation(key, f"{k['compiler']} -{k['opt']}: a namespace-scope {k['type']}<{k['num']}> object computes before main() something else than main() does: {k['facility'][:300]}", b)
+                continue
             if b['cls'] == 'static_init_witness':
                 chk.violation(f"static_init_witness:{k['compiler']}", f"namespace-scope Length/Temperature objects built from a non-standard unit with {k['compiler']} -{k['opt']}: {k['facility']}", b)
                 continue
@@ -94,13 +118,18 @@ def run(tier):
                 chk.violation(f'static_init:{comp}:{fac}', f'StaticInit under the {pol} policy: a user object using {fac} can read {tab} before its initialisation (unit types: {m["types"][:3]}...)', m)
             else:
                 chk.note_inconclusive(f'model fault under {pol} not confirmed by probes: {fac} reads {tab}')
+    for n in extra_unordered:
+        if not any(e['e'] == 'PreMain' and e['differ'] for e in evs):
+            chk.note_inconclusive(f'variable template {n} has unordered dynamic initialisation (GCC initialises it after the user objects of a translation unit); no probe observed a difference')
+    pm = [e for e in evs if e['e'] == 'PreMain']
+    chk.layer('conformance.quantities', events=len(pm), programs=len(progs) * len(combos), other_unordered_variable_templates=extra_unordered)
     pr = [e for e in evs if e['e'] == 'Probe']
     chk.layer('A', kind_signatures=len(sigs), policies=['GCC', 'Clang', 'Standard'],
               model={f'{pol}#{i}': ('holds' if m['holds'] else m['faults']) for (i, pol), m in model.items()},
               note='Standard is information only: the property quantifies over the orders GCC and Clang produce')
     chk.layer('conformance', probe_events=len(pr), compilers_x_opt=len(combos), unit_types=len(us), numeric_types=3, facilities=6,
               policy_model_mismatches=mismatch, witness=[e for e in evs if e['e'] == 'Witness'])
-    chk.count(evaluations=len(pr), distinct=len(pr))
+    chk.count(evaluations=len(pr) + sum(e['fields'] for e in pm), distinct=len(pr) + len(pm))
     chk.cov['rule'] = 'model: all schedules of two translation units x 7 facilities per policy; probes: one namespace-scope object per (unit type, numeric type) per compiler and -O level, six facility results each compared with the same expression in main()'
     for e in pr[:2] + [e for e in evs if e['e'] == 'Witness'][:2]:
         chk.sample(e)
